@@ -99,11 +99,25 @@ TablesBeforeOle(ch) ==       \* exactly the deviant order: tableParts directly f
   /\ \E i \in 1..(Len(ch) - 1) : ch[i] = "tableParts" /\ ch[i + 1] = "oleObjects"
   /\ Ordered(SelectSeq(ch, LAMBDA n : n # "tableParts"))
 
+(* KF8 does not depend on where the writer stores a text: the part that carries a text with a character XML
+   cannot carry - the shared strings part, or the sheet part that holds the cell (inline string) - is not
+   well-formed; no other part may be *)
+NotWf(p) == {p.parts[i].name : i \in {j \in DOMAIN p.parts : ~p.parts[j].wf}}
+IllSheets(E) == {t.s : t \in ToSet(E.facts.illegal)}
+IllSheetParts(p, E) == {p.sheets[i].part : i \in IllSheets(E) \cap DOMAIN p.sheets}
+SstBroken(p) == SstParts(p) # {} /\ SstParts(p) \subseteq NotWf(p)
+SheetBroken(E, s) == KFOn("C02-KF8") /\ s \in IllSheets(E) /\ s \in DOMAIN E.pkg.sheets /\ E.pkg.sheets[s].part \in NotWf(E.pkg)
+CarriersBroken(p, off, E) ==
+  /\ E.facts.illegal # <<>> /\ off # {}
+  /\ off \subseteq SstParts(p) \cup IllSheetParts(p, E)
+  /\ \A t \in ToSet(E.facts.illegal) : (SstParts(p) # {} /\ SstParts(p) \subseteq off)
+                                        \/ (t.s \in DOMAIN p.sheets /\ p.sheets[t.s].part \in off)
+
 (* ClauseKF[c] = <<finding id, the deviant offence set is exactly as the defect produces it>> *)
 DevMatch(c, p, off, offs, E) ==
-  CASE c = "notwf"    -> E.facts.illegal # <<>> /\ off = SstParts(p)
+  CASE c = "notwf"    -> CarriersBroken(p, off, E)
     [] c = "untyped"  -> off = {"/xl/media/" \o im.name : im \in {x \in AllImgs : x.extl \notin TypedExts}}
-    [] c = "sstidx"   -> /\ E.facts.illegal # <<>> /\ offs.notwf = SstParts(p) /\ SstParts(p) # {} /\ p.nsst = 0
+    [] c = "sstidx"   -> /\ CarriersBroken(p, offs.notwf, E) /\ SstBroken(p) /\ p.nsst = 0      \* the table cannot be read
                          /\ off = {p.sheets[i].part : i \in {j \in DOMAIN p.sheets : p.sheets[j].ssx # <<>>}}
     [] c = "dangling" -> /\ Cardinality(off) = FoldLeft(LAMBDA a, b : a + b, 0, [i \in DOMAIN wb.sheets |-> wb.sheets[i].vmlnoimg])
                          /\ \A d \in off : d.kind = "image" /\ d.target = "/xl/media" /\ d.src \in VmlParts(p)
@@ -126,7 +140,7 @@ ErrVar(M)   == IF KFOn("C02-KF4")
                THEN Nz({[NormCell(m) EXCEPT !.v = "#VALUE!"] : m \in {x \in M : x.k = "err" /\ ~IsFormula(x) /\ x.v # "#VALUE!"}}) ELSE {}
 FtypeVar(M) == IF KFOn("C02-KF5")
                THEN Nz({[NormCell(m) EXCEPT !.k = "text", !.v = m.d] : m \in {x \in M : IsFormula(x) /\ x.k \in {"num", "bool", "err"}}}) ELSE {}
-IllVar(M, E) == IF KFOn("C02-KF8") /\ E.facts.illegal # <<>>
+IllVar(M, E) == IF KFOn("C02-KF8") /\ E.facts.illegal # <<>> /\ SstBroken(E.pkg)      \* cells stored as shared strings
                 THEN Nz({[NormCell(m) EXCEPT !.k = "bad", !.v = ""] : m \in {x \in M : x.k = "text" /\ ~IsFormula(x)}}) ELSE {}
 (* text facts (computed outside TLC, which cannot look inside a string): t.nl = t.v after XML line-end
    normalisation, t.xs = t.v after ST_Xstring unescaping, t.xn = both *)
@@ -188,13 +202,16 @@ LinkHits(E, s) ==
 ContentProblems(E) ==
   IF [i \in DOMAIN E.dec.sheets |-> E.dec.sheets[i].name] # SheetNames(wb)
   THEN {<<"sheet list", "expected", SheetNames(wb), "decoded", [i \in DOMAIN E.dec.sheets |-> E.dec.sheets[i].name]>>}
-  ELSE UNION {CellProblems(E, s) \cup LinkProblems(E, s)
+  ELSE UNION {IF SheetBroken(E, s)         \* KF8 with the text held in the sheet part: exactly this sheet is undecodable
+              THEN (IF E.dec.sheets[s].cells = <<>> /\ E.dec.sheets[s].links = <<>> /\ E.dec.sheets[s].merges = <<>> THEN {}
+                    ELSE {<<"sheet", s, "content decoded from a part that is not well-formed">>})
+              ELSE CellProblems(E, s) \cup LinkProblems(E, s)
               \cup (IF ToSet(E.dec.sheets[s].merges) = wb.sheets[s].merges /\ Len(E.dec.sheets[s].merges) = Cardinality(wb.sheets[s].merges)
                     THEN {} ELSE {<<"merges", s, "expected", wb.sheets[s].merges, "decoded", E.dec.sheets[s].merges>>})
               : s \in DOMAIN wb.sheets}
        \cup (IF ToSet(E.dec.names) = ToSet(AllNames(wb)) /\ Len(E.dec.names) = Len(AllNames(wb)) THEN {}
              ELSE {<<"defined names", "expected", AllNames(wb), "decoded", E.dec.names>>})
-ContentHits(E) == UNION {CellHits(E, s) \cup LinkHits(E, s) : s \in DOMAIN wb.sheets}
+ContentHits(E) == UNION {IF SheetBroken(E, s) THEN {"C02-KF8"} ELSE CellHits(E, s) \cup LinkHits(E, s) : s \in DOMAIN wb.sheets}
 
 (* ---- does SavePkg (the design TLC model-checks) still describe the writer?  Not a verdict about the code:
    reported as "drift" and kept out of the violations by checks/c02.py ---------------------------------- *)
